@@ -347,6 +347,73 @@ def unit_compare(unit):
     return agg
 
 
+# cross-kind comparisons: the vector is of one kind, the other operand (scalar, list, tuple, vector) of another; Python's own
+# comparison is exact across int / float / complex (2.0**53 != 2**53 + 1) and never equates a datetime with a date
+from datetime import date as _date, datetime as _datetime
+CROSS = [
+    ("float-edge", [2.0 ** 53, 1.5, -0.0], "int-edge", [2 ** 53 + 1, 2 ** 53, 0, 10 ** 400]),
+    ("int-edge", [2 ** 53 + 1, 2 ** 53, 0], "float-edge", [2.0 ** 53, 1.5, -0.0]),
+    ("complex-edge", [complex(2 ** 53, 0), 1j], "int-edge", [2 ** 53 + 1, 2 ** 53, 0]),
+    ("datetime", [_datetime(2020, 1, 1, 0, 0), _datetime(2020, 1, 1, 5, 0)], "date", [_date(2020, 1, 1), _date(2021, 1, 1)]),
+    ("date", [_date(2020, 1, 1), _date(2021, 1, 1)], "datetime", [_datetime(2020, 1, 1, 0, 0), _datetime(2020, 1, 1, 5, 0)]),
+    ("bytes", [b"ab", b"cd", b""], "bytes", [b"ab", b"", b"abc"]),
+    ("str", ["ab", "cd", ""], "bytes", [b"ab", b""]),
+    ("bool", [True, False], "int-edge", [1, 0, 2]),
+    ("str", ["ab", "a"], "str-long", ["ab", "abc"]),       # a scalar whose own length equals the vector's is still a scalar
+]
+
+
+def unit_compare_cross(unit):
+    from serif import Vector
+    _, ci, maxlen = unit
+    lk, lalpha, rk, ralpha = CROSS[ci]
+    agg = Agg()
+    for n in range(1, maxlen + 1):
+        for xs in itertools.product(lalpha, repeat=n):
+            xs = list(xs)
+            for opn, op in CMP.items():
+                # scalar right operand, both orders
+                for y in ralpha:
+                    for order in ("v-op-s", "s-op-v"):
+                        pairs = (xs, [y] * n) if order == "v-op-s" else ([y] * n, xs)
+                        if _python_raises(op, *pairs):
+                            agg.skipped["python-raises"] += 1
+                            continue
+                        want = expected_cmp(op, *pairs)
+                        agg.evals += 1; agg.transitions += 1; agg.states += 1
+                        if len(set(want)) > 1 or n == 1:
+                            agg.nontrivial += 1
+                        case = {"op": opn, "vector_kind": lk, "vector": [repr(x) for x in xs], "scalar_kind": rk, "scalar": repr(y), "form": order}
+                        try:
+                            res = op(Vector(xs), y) if order == "v-op-s" else op(y, Vector(xs))
+                        except Exception as e:
+                            agg.violation(V(f"compare.{opn}.cross-scalar", "raises-" + type(e).__name__, case, want, repr(e)[:80]))
+                            continue
+                        check_bool_result(agg, f"compare.{opn}.cross-scalar", res, want, case)
+                        agg.outcomes["cmp-ok"] += 1
+                # sequence / vector right operand of the other kind
+                for ys in itertools.product(ralpha, repeat=n):
+                    ys = list(ys)
+                    if _python_raises(op, xs, ys):
+                        agg.skipped["python-raises"] += 1
+                        continue
+                    want = expected_cmp(op, xs, ys)
+                    for form in ("vv", "vl", "vt"):
+                        agg.evals += 1; agg.transitions += 1; agg.states += 1
+                        case = {"op": opn, "vector_kind": lk, "vector": [repr(x) for x in xs], "other_kind": rk, "other": [repr(y) for y in ys], "form": form}
+                        try:
+                            r = Vector(ys) if form == "vv" else (list(ys) if form == "vl" else tuple(ys))
+                            res = op(Vector(xs), r)
+                        except Exception as e:
+                            agg.violation(V(f"compare.{opn}.cross-{form}", "raises-" + type(e).__name__, case, want, repr(e)[:80]))
+                            continue
+                        check_bool_result(agg, f"compare.{opn}.cross-{form}", res, want, case)
+                        agg.outcomes["cmp-ok"] += 1
+    agg.sample({"compare-cross": [lk, rk], "max_len": maxlen})
+    return agg
+
+
+
 def _python_raises(op, xs, ys):
     try:
         for x, y in zip(xs, ys):
@@ -649,6 +716,22 @@ def unit_table(unit):
                 agg.violation(V("table.getitem.introw", "out-of-range-row-readable", case, "IndexError", repr(got)[:80]))
             else:
                 agg.outcomes["int-row-out-of-range-raises"] += 1
+    # ---- rows taken first and read later, other rows of the same table being taken in between
+    if nrows and names:
+        agg.evals += 1; agg.transitions += 2 * nrows; agg.compared += 2 * nrows
+        try:
+            held = [(i, t[i]) for i in range(-nrows, nrows)]
+            t.shape; repr(t)
+            got = [(i, list(r)) for i, r in held]
+        except Exception as e:
+            got = e
+        want = [(i, [vals[i] for _, vals in model]) for i in range(-nrows, nrows)]
+        if isinstance(got, Exception):
+            agg.violation(V("table.getitem.introw", "held-rows-raise-" + type(got).__name__, d))
+        elif any(not same_list(g[1], w[1]) for g, w in zip(got, want)):
+            agg.violation(V("table.getitem.introw", "row-taken-earlier-shows-another-row", d, want, got))
+        else:
+            agg.outcomes["held-rows-ok"] += 1
     # ---- histories: rename a column through a live view (and swap two names), then select by name
     if nrows and len(names) >= 1:
         scenarios = [("rename-first", {0: "renamed"})]
@@ -705,6 +788,7 @@ def check(ctx):
     units = [("vec", k, n) for k in KINDS for n in range(0, N + 1)]
     parts = core.pmap(unit_vector, units)
     parts += core.pmap(unit_compare, [("cmp", k, L) for k in CMP_ALPHA])
+    parts += core.pmap(unit_compare_cross, [("cmpx", i, L) for i in range(len(CROSS))])
     tunits = [("tab", names, r) for names in NAME_SETS for r in range(0, R + 1)]
     parts += core.pmap(unit_table, tunits)
     agg = core.merge_all(parts)
